@@ -43,6 +43,7 @@ type FuncContract struct {
 	Line     int
 	NoVerify bool // extern: body not verified
 	Fresh    []string // results declared fresh (newly allocated)
+	Devirt   string   // interface method: calls are resolved to this concrete type's method (pkg.Type), with an obligation that the dynamic type is that type
 }
 
 type PureFunc struct {
@@ -88,9 +89,10 @@ type ContractFile struct {
 	Lemmas  []*Lemma
 	Ghosts  []*GhostVar
 	Axioms  []*Axiom
+	Imports map[string]string
 }
 
-var keywordRe = regexp.MustCompile(`^(func|extern|requires|ensures|modifies|loop|pure|lemma|ghost|replay|inline|axiom|safety|tags|params|fresh)\b`)
+var keywordRe = regexp.MustCompile(`^(func|extern|requires|ensures|modifies|loop|pure|lemma|ghost|replay|inline|axiom|safety|tags|params|fresh|devirtualize|import)\b`)
 var tagRe = regexp.MustCompile(`^\[([A-Za-z0-9, ]+)\]\s*`)
 var labelRe = regexp.MustCompile(`^([A-Za-z][A-Za-z0-9_\-\.]*):\s+`)
 
@@ -248,6 +250,17 @@ func parseContractFile(path, pkgPath string, stripPrefix bool) (*ContractFile, e
 			cur.Params = strings.Fields(strings.ReplaceAll(it.text, ",", " "))
 		case "fresh":
 			cur.Fresh = append(cur.Fresh, strings.Fields(strings.ReplaceAll(it.text, ",", " "))...)
+		case "import":
+			fs := strings.Fields(it.text)
+			if len(fs) != 2 {
+				return nil, fmt.Errorf("%s:%d: import needs an alias and a quoted path", path, it.line)
+			}
+			if cf.Imports == nil {
+				cf.Imports = map[string]string{}
+			}
+			cf.Imports[fs[0]] = strings.Trim(fs[1], "\"")
+		case "devirtualize":
+			cur.Devirt = strings.TrimSpace(it.text)
 		case "replay":
 			cur.Replay = strings.TrimSpace(it.text)
 		case "inline":
@@ -346,6 +359,11 @@ func parsePure(txt string) (pf *PureFunc, err error) {
 		ps.fail("expected pure function name")
 	}
 	pf = &PureFunc{Name: n.s, Src: txt}
+	if ps.isOp(".") { // receiver-qualified twin of a Go method: Type.Method
+		ps.next()
+		m := ps.next()
+		pf.Name = n.s + "." + m.s
+	}
 	ps.expectOp("(")
 	for !ps.isOp(")") {
 		v := ps.next()
